@@ -57,13 +57,26 @@ func verifObserve(f *Feed) verifkit.M {
 }
 
 func verifSession(out *verifkit.Trace, sid int, ops []verifOp) {
+	verifSessionPool(out, sid, ops, 0)
+}
+
+/* pool > 0: the items come from a pool of that many (so that the same item is handed over again and again, also twice
+   in a row and right after itself) */
+func verifSessionPool(out *verifkit.Trace, sid int, ops []verifOp, pool int) {
 	out.Emit(verifkit.M{"ev": "reset", "sid": sid, "kind": "feed"})
 	var f *Feed
 	next := 1
+	var lastTags []int
 	fresh := func(k int) []pub.Tangible {
 		items := make([]pub.Tangible, k)
+		lastTags = make([]int, k)
 		for i := range items {
-			items[i] = verifItem(next)
+			tag := next
+			if pool > 0 {
+				tag = 1 + (next*7/3)%pool
+			}
+			items[i] = verifItem(tag)
+			lastTags[i] = tag
 			next++
 		}
 		return items
@@ -92,7 +105,11 @@ func verifSession(out *verifkit.Trace, sid int, ops []verifOp) {
 		if panicked {
 			obs = verifkit.M{}
 		}
-		out.Emit(verifkit.M{"ev": "f_op", "op": op.Op, "k": op.K, "obs": obs, "panic": panicked})
+		ev := verifkit.M{"ev": "f_op", "op": op.Op, "k": op.K, "obs": obs, "panic": panicked}
+		if pool > 0 && (op.Op == "append" || op.Op == "prepend" || op.Op == "createlist") {
+			ev["tags"] = lastTags
+		}
+		out.Emit(ev)
 		if panicked {
 			return
 		}
@@ -131,7 +148,11 @@ func TestVerifFeed(t *testing.T) {
 			}
 		}
 		sid++
-		verifSession(out, sid, ops)
+		if i%4 == 3 && ops[0].Op == "createlist" {
+			verifSessionPool(out, sid, ops, 1+i%3)
+		} else {
+			verifSession(out, sid, ops)
+		}
 	}
 	/* long threads and timelines: n chunks appended, walked to the last item and back, as many prepended, walked to
 	   the first item, back to the centre */
